@@ -14,3 +14,4 @@ pub mod refrun;
 pub mod rowcol;
 pub mod builtins;
 pub mod proc_sx;
+pub mod arrl_sx;
